@@ -24,6 +24,7 @@ fn usage() -> ! {
 macro_rules! dispatch {
     ($prop:expr, $f:ident, $($arg:expr),*) => {
         match $prop {
+            "C01" => driver::$f(scenarios::c01::C01, $($arg),*),
             "C02" => driver::$f(scenarios::c02::C02, $($arg),*),
             "C10" => driver::$f(scenarios::c10::C10, $($arg),*),
             other => {
